@@ -70,7 +70,7 @@ def showOut (variant : String) (o : Out) : String :=
     match variant with
     | "int" | "ptr" => s!"v={s32 bs}"
     | "struct" | "structval" | "structauto" => s!"c={s8 (bs.getD 0 0)},l={s32 ((bs.drop 4).take 4)},p={showPtr (decodeLE ((bs.drop 8).take 4))}"
-    | "arr" => s!"a={ints bs}"
+    | "arr" | "arrref" => s!"a={ints bs}"
     | "range" => s!"a={ints bs} size={bs.length}"
     | "stru" =>
         let nul : Int := match bs.idxOf? 0 with | some i => i | none => -1
@@ -85,7 +85,7 @@ def progOf (variant : String) (src : PSrc) : Option (Prog Out) :=
   | "ptr" => some (cavPtr src 4)
   | "struct" => some (cavStruct src 12)
   | "structval" | "structauto" => some (cavScalar STRUCT 12)
-  | "arr" => some (cavScalar ARR 16)
+  | "arr" | "arrref" => some (cavScalar ARR 16)
   | "range" => some (cavRange src 4 4)
   | "stru" => some (cavStrU src)
   | "strs" => some (cavStrS src)
